@@ -78,6 +78,22 @@ def run_continue(case):
         met["load_residual"] = res
         if not (0.5 < f < 2.0) or res > 3e-7:
             return Outcome(False, nontriv, cls, "first phase space of the continued run is not a multiple of the stored record %d (factor %.6g, residual %.3g)" % (idx, f, res), sig="c11:load:factor", metrics=met)
+        if ren == 0:
+            # RenormalizeCharge = 0: no renormalisation in the loop; the one-off normalisation before the loop rescales by
+            # the population the grid was CONSTRUCTED with (the unit Gaussian's integral G on this grid), never by the
+            # charge of the loaded record.  "Loads exactly the stored values" therefore means factor 1/G here, whatever
+            # charge the first leg has lost (round-6 seed C11f turns it into 1/charge of the record)
+            n0 = d["n"]
+            dl0 = d["pq"] / (n0 - 1)
+            w0 = gen.simpson_weights(n0, dl0)
+            q0 = -d["pq"] / 2 - o.get("PhaseSpaceShiftX", 0.0) * dl0 + np.arange(n0) * dl0
+            p0 = -d["pq"] / 2 - o.get("PhaseSpaceShiftY", 0.0) * dl0 + np.arange(n0) * dl0
+            G0 = (w0 * np.exp(-q0 * q0 / 2) / np.sqrt(2 * np.pi)).sum() * (w0 * np.exp(-p0 * p0 / 2) / np.sqrt(2 * np.pi)).sum()
+            met["load_factor_dev"] = abs(f * G0 - 1)
+            popsrc = float(hB1["/BunchPopulation/data"][-1, 0]) if idx == nrec - 1 else None
+            if popsrc is not None and abs(popsrc - 1) > 2e-4 and abs(f * popsrc - 1) < 3e-6 and abs(f * G0 - 1) > 30 * abs(f * popsrc - 1):
+                return Outcome(False, nontriv, cls, "RenormalizeCharge=0: the loaded record %d was rescaled by %.7g = 1/(its own charge %.7g) instead of being loaded as stored (construction factor 1/G = %.7g)" %
+                               (idx, f, popsrc, 1 / G0), sig="c11:load:rescaled", metrics=met)
     # 2. equivalence
     fa, fb = hA["/PhaseSpace/data"][-1, 0], hB2["/PhaseSpace/data"][-1, 0]
     tA = hA["/PhaseSpace/axis0"][-1]
